@@ -262,14 +262,12 @@ class Solver:
 
         display = solver_display(problem, params)
 
-        iterate = self.transform.create_transformed_iterate(x0, y0)
-
         try:
+            iterate = self.transform.create_transformed_iterate(x0, y0)
             iterate.check_eval()
+            print_problem_stats(problem, iterate)
         except EvalError as e:
             raise Exception("Failed to evaluate initial iterate") from e
-
-        print_problem_stats(problem, iterate)
 
         lamb = params.lamb_init
 
